@@ -357,6 +357,24 @@ func (c *EvalCtx) evalCall(x *SCall) (TV, error) {
 			return TV{Val: Val{app(f, h.T, SBase(v.Val).T, SLen(v.Val).T), SStr}, Ty: types.Typ[types.String]}, nil
 		}
 		return TV{Val: c.e.bytesToString(c.st, v.Val), Ty: types.Typ[types.String]}, nil
+	case "strcat":
+		// a + b on strings (the uninterpreted str_cat the code's concatenation is modelled with)
+		if len(x.Args) != 2 {
+			return TV{}, fmt.Errorf("strcat(a, b)")
+		}
+		a, err := c.eval(x.Args[0])
+		if err != nil {
+			return TV{}, err
+		}
+		b, err := c.eval(x.Args[1])
+		if err != nil {
+			return TV{}, err
+		}
+		if a.S != SStr || b.S != SStr {
+			return TV{}, fmt.Errorf("strcat needs strings")
+		}
+		f := c.W().Uninterp("str_cat", []Sort{SStr, SStr}, SStr)
+		return TV{Val: Val{app(f, a.T, b.T), SStr}, Ty: types.Typ[types.String]}, nil
 	case "iterseen":
 		// iterseen(k): the enclosing range loop over a map has already delivered key k
 		if len(c.st.iters) != 1 {
